@@ -184,7 +184,15 @@ def plain_case(obs, rng, spec):
         coords = [dataset[x['name']] if as_arrays else x['name'] for x in chosen]
         if one_shot:
             coords = iter(coords)         # an Iterable that can be consumed only once
-        return depth.normalize_depth_variables(dataset, coords, positive_down=a, deep_to_shallow=b)
+        kw = {}
+        if a is not None or not omit_unset:
+            kw['positive_down'] = a
+        if b is not None or not omit_unset:
+            kw['deep_to_shallow'] = b    # an option left unset may also simply not be passed
+        return depth.normalize_depth_variables(dataset, coords, **kw)
+    omit_unset = chance(rng, 0.5)
+    if omit_unset:
+        obs.cls('unset-options-not-passed')
 
     drive(obs, rng, spec, ds, axes, chosen, call, 'direct', 'plain')
 
@@ -216,8 +224,15 @@ def ems_case(obs, rng, conv, spec):
     obs.cls('ems-depth-coordinates-as-generated')
     from emsarray.operations import depth
 
+    omit_unset = chance(rng, 0.5)
+
     def call_ems(dataset, a, b):
-        return dataset.ems.normalize_depth_variables(positive_down=a, deep_to_shallow=b)
+        kw = {}
+        if a is not None or not omit_unset:
+            kw['positive_down'] = a
+        if b is not None or not omit_unset:
+            kw['deep_to_shallow'] = b
+        return dataset.ems.normalize_depth_variables(**kw)
 
     def call_direct(dataset, a, b):
         return depth.normalize_depth_variables(dataset, [x['name'] for x in axes], positive_down=a, deep_to_shallow=b)
